@@ -1683,9 +1683,15 @@ fn gen_pmd(r: &mut Rng) -> String {
 fn gen_pmf(r: &mut Rng) -> String {
 	let n = r.below(9) as usize;
 	let so = r.chance(5, 6);
-	let es = gen_entries(r, n, so, false);
+	// checklist class 1: run lengths up to u32::MAX (the field is a u32 in the code), looked up at
+	// id + run − 1 / id + run / id + run + 1
+	let wild = r.chance(1, 6);
+	let es = gen_entries(r, n, so, wild);
 	let id = if es.is_empty() || r.chance(1, 6) {
 		edge_u64(r)
+	} else if wild {
+		let e = r.pick(&es);
+		e.id.saturating_add(e.run.min(u32::MAX as u64)).saturating_add(r.below(3)).saturating_sub(1)
 	} else {
 		let e = r.pick(&es);
 		(e.id + r.below(e.run + 3)).saturating_sub(r.below(2))
@@ -2079,6 +2085,10 @@ pub fn run(args: &Args) {
 	self_test().expect("independent Hilbert implementation self test");
 	let mut ctx = new_ctx(args, "c16-scratch");
 	ctx.out.rule = "every opened container is also read in bulk through get_bbox_tile_stream (full level boxes, quarters, strips across 256-block borders, 3x3 boxes and whole blocks around found tiles; multi-thread runtime, catch_unwind) and must yield exactly the encoded tiles of the box, each once; containers built by an independent encoder from small random tile sets (1–40 tiles in clusters near 0 / the 256 grid / the level edge, zoom 0–14 and some 15–24, payload pool with duplicates and a few empty payloads) and random layout choices (versatiles: sparse/shuffled block index, padded or full ranges, empty declared block, shared offsets, gaps, metadata absent; pmtiles: run lengths, shared offsets, explicit offsets, 1–3 directory levels with fan-out 1–5, mixed root, internal compression none/gzip/brotli, unclustered data, section order; mbtiles: zoom gaps, view over map/images, extra metadata; tar: ./ prefix none/all/mixed, directory members, ustar prefix field, shuffled members, metadata name/compression, .jpeg/.PNG extensions; directory tree likewise); queries = encoded coordinates + ≤100 probes (8 neighbours, ±256, other zoom levels, random); codec streams VTH VBD VTI VBI PMH PMD PMF PMS HIL NAM with valid, mutated and boundary inputs. A container case is non-trivial when it uses at least one freedom the own writer never uses and has ≥ 2 tiles; a codec case when the real code does not answer `err`; distinct by case text".into();
+	ctx.out.notes.push("CHECKLIST 1 thresholds: 256-block borders, zoom 0/30/31, u32::MAX run lengths / offsets 2^32±1 in PMD/PMF/VBD, 4097+ entries (PMS), versatiles blob gaps 32767/32768/32769 in one bulk read, tar names 99/100/101/155+; the 64 MiB read-chunk rule is reached only in the thorough tier (one 70 MiB block)".into());
+	ctx.out.notes.push("CHECKLIST 2 faults after open: every container is also cut at several lengths (header, index, last byte); reader and model must fail alike or return only encoded tiles; payloads not valid under the declared compression are delivered unopened by both".into());
+	ctx.out.notes.push("CHECKLIST 3 payloads: empty, 1 byte, duplicates within/across blocks, > 64 KiB, undecodable; 5 reuse: the same reader answers all lookups again after the bulk streams; 6 order: blob order ≠ index order (reverse, column-major, random), 8 extremes: special_sets(); 9 independent encoder: every container; 10 two paths: lookup vs get_bbox_tile_stream vs model on every container".into());
+	ctx.out.notes.push("CHECKLIST 4 option interplay and 7 HTTP variants: not applicable – the readers take no options besides the path and serve no requests".into());
 	if let Some(p) = &args.replay {
 		for line in std::fs::read_to_string(p).unwrap().lines() {
 			let line = line.trim_end();
@@ -2171,6 +2181,26 @@ pub fn run(args: &Args) {
 				let b = build_d(&ctx.rt, &mut ctx.scratch, &tiles, &chd, seed);
 				emit(&mut ctx, "C16", &tiles, b, &mut |c: &mut Ctx, t: &TileMap| build_d(&c.rt, &mut c.scratch, t, &chd, seed));
 			}
+		}
+	}
+	// checklist class 1, thorough tier only: one versatiles block whose blobs are contiguous and together longer than the
+	// 64 MiB read-chunk limit of get_bbox_tile_stream (5 x 14 MiB): the bulk read has to start a new chunk because of
+	// the size rule, not because of a gap (oracle only – the line is far beyond MAX_LINE)
+	if args.thorough() {
+		let mut tiles = TileMap::new();
+		for i in 0..5u32 {
+			let n = 14 * 1024 * 1024 + i as usize;
+			tiles.insert((11, 700 + i, 400 + (i % 2)), (0..n).map(|k| ((k as u32).wrapping_mul(31).wrapping_add(i) % 251) as u8).collect());
+		}
+		for order in [0u8, 2] {
+			let seed = rng.next();
+			ctx.out.count("special_chunk64MiB");
+			let mut chv = gen_vt_choices(&mut rng);
+			chv.share = false;
+			chv.max_gap = 0;
+			chv.blob_order = order;
+			let b = build_v(&ctx.rt, &tiles, &chv, seed);
+			emit(&mut ctx, "C16", &tiles, b, &mut |c: &mut Ctx, t: &TileMap| build_v(&c.rt, t, &chv, seed));
 		}
 	}
 	// truncated containers (class 2): cut valid versatiles / pmtiles files at structural and arbitrary offsets: the reader
